@@ -9,7 +9,7 @@ from wire import CRec
 
 TABLES = []
 LAKE_TARGETS = ["Moclo.Props.C03"]
-THEOREMS = ["Moclo.C03." + t for t in ["ok_sound", "ok_complete", "error_classes", "order_independent"]]
+THEOREMS = ["Moclo.C03." + t for t in ["ok_sound", "ok_complete", "error_classes", "order_independent", "palindromic_start_refused"]]
 # reductions under which a failing case stays a case of this property (see shrink.py)
 SHRINK = {"lists": ["mods", "lower"], "ints": [], "freeze_if": ["recipe"]}
 RULE = ("real plasmids over a 2-nt cutter for every (start, end) pair of the overhang alphabet "
